@@ -73,6 +73,25 @@ Section Bridge.
     specialize (IH c'). destruct (gscan (gen_extract_policy_idx_state_batch P) c' rest) as [cf yss]. now rewrite <- IH.
   Qed.
 
+  (* PolicyIteration's evaluation sweep: each state is backed up under ITS OWN policy action (looked up by state index) *)
+  Lemma gen_policy_value_state_batch_eq actions events g V pol batch :
+    gen_calculate_policy_value_state_batch P (actions, events, g, V, pol) batch =
+    ((actions, events, g, V, pol), map (fun st => k_state_action_value M st (nth st pol 0%nat) events g V) batch).
+  Proof.
+    unfold gen_calculate_policy_value_state_batch. f_equal. unfold P. simpl. rewrite map_map.
+    induction batch as [|st l IH]; simpl; [reflexivity|]. rewrite IH. f_equal. apply gen_state_action_value_eq.
+  Qed.
+
+  Lemma gen_policy_values_scan_eq actions events g V pol batches :
+    gen_calculate_policy_values_scan_state_batches P (actions, events, g, V, pol) batches =
+    map (map (fun st => k_state_action_value M st (nth st pol 0%nat) events g V)) batches.
+  Proof.
+    unfold gen_calculate_policy_values_scan_state_batches.
+    induction batches as [|b rest IH]; [reflexivity|].
+    cbn [gscan map]. rewrite gen_policy_value_state_batch_eq.
+    destruct (gscan (gen_calculate_policy_value_state_batch P) (actions, events, g, V, pol) rest) as [cf yss]. now rewrite <- IH.
+  Qed.
+
   (* hence: the generated one-state backup over the whole action and event spaces is the Bellman optimality backup *)
   Lemma gen_updated_value_is_backup st g V : (0 < nA M)%nat ->
     gen_calculate_updated_value P st (seq 0 (nA M)) (seq 0 (nE M)) g V = backup M g V st.
